@@ -212,6 +212,20 @@ func c06Affinity(r *vres.Report, strat string, maxN int) {
 							// other clients' traffic in between must not matter
 							other := c06Clients[(ci+1+si)%len(c06Clients)]
 							ask(func(r *http.Request) { r.RemoteAddr = hostPort(other, "2222") })
+							// nor must a short outage in between (every backend ejected for a second,
+							// a request answered 503, everything back): the eligible set is the same
+							// afterwards
+							if si == 2 && pi == 0 && ci%2 == 0 {
+								for i := 0; i < n; i++ {
+									if mask&(1<<i) == 0 {
+										k.lb.MarkBackendUnhealthy(k.backendByName(fmt.Sprintf("b%d", i)), time.Second)
+									}
+								}
+								if got, status := ask(func(r *http.Request) { r.RemoteAddr = hostPort(other, "3333") }); got >= 0 || status != 503 {
+									r.Violate("C06/"+strat+"/choice-not-eligible/during-outage", fmt.Sprintf("%s n=%d: with every backend ejected a request was served by %d (status %d)", strat, n, got, status), n, nil)
+								}
+								s.AdvanceQuiet(2 * time.Second)
+							}
 						}
 					}
 					outs.Add(fmt.Sprintf("n%d-b%d", n, first))
